@@ -307,6 +307,43 @@ def probe_only_first(chk, prog, rid="R5.nothing_yet"):
     chk.ob(rid, fn, "after a fragment was collected the next frame is read with the blocking reader", w is None,
            "a continuation frame is awaited with the non-blocking probe: if it has not arrived yet, `nothing yet` is returned, the fragments already "
            "read are discarded and the tail later arrives as a separate truncated message", path=w)
+    # the dual: the blocking reader is used only once a data fragment has been collected.  Before that (also after a Ping / Pong, which is
+    # answered and skipped) the caller is the single-threaded poll loop, and a blocking read parks it on one quiet client.
+    blocking = [blk for blk, t in b.calls_to(r"frame::Frame::from_stream$")]
+    if blocking:
+        w = core.must_pass(b, [0], blocking, through_nodes=pushes, after_from=False)
+        chk.ob(rid.split(".")[0] + ".blocking_only_mid_message", fn, "the blocking frame reader is reached only after a data fragment was collected", w is None,
+               "after a control frame (Ping answered, Pong noted) the next frame is awaited with the blocking reader although no message is in progress: "
+               "the poll loop of AsyncWebsocketApp is parked on that client until it sends again (no other client is served, shutdown is not seen)", path=w)
+
+
+def no_timeout_after_upgrade(chk, prog):
+    """R8: the keep-alive timeout that bounds the wait for a request is no longer on the socket when it is handed to a WebSocket handler: a
+    quiet (or slowly sending) client must not make recv() fail.  Either the timed reader clears it before it returns a request, or the
+    connection loop clears it on every path from the reader to the WebSocket dispatch."""
+    rd = prog.bodies.get("humphrey::http::request::Request::from_stream_with_timeout")
+    ch = prog.bodies.get("humphrey::app::client_handler")
+    chk.floor("timed request reader / connection loop", (1 if rd else 0) + (1 if ch else 0), 2)
+    if not rd or not ch:
+        return
+    def classify(b):
+        sets = [(blk, describe(prog, b, t["args"][1])) for blk, t in b.calls_to(r"Stream::set_timeout$")]
+        return [blk for blk, d in sets if d[0] == "variant" and d[2] == "Some"], [blk for blk, d in sets if d[0] == "variant" and d[2] == "None"]
+    armed, cleared = classify(rd)
+    chk.floor("set_timeout(Some(..)) in the timed reader", len(armed), 1)
+    oks = core.ok_return_blocks(rd, "Ok") or core.return_blocks(rd)
+    inner = [blk for blk, t in rd.calls_to(r"Request::from_stream(_inner)?$")]
+    inside = bool(cleared) and core.must_pass(rd, armed, inner or oks, through_nodes=cleared) is None
+    _, cleared_ch = classify(ch)
+    readers = [blk for blk, t in ch.calls_to(r"Request::from_stream_with_timeout$")]
+    ws = [blk for blk, t in ch.calls_to(r"::call_websocket_handler$")]
+    chk.floor("timed reads / WebSocket dispatch sites in client_handler", min(len(readers), 1) + min(len(ws), 1), 2)
+    w = None
+    if not inside:
+        w = core.must_pass(ch, readers, ws, through_nodes=cleared_ch) if cleared_ch else [readers[0] if readers else 0, ws[0] if ws else 0]
+    chk.ob("R8.no_timeout_after_upgrade", ch.path, "the read timeout is cleared between the timed request read and the WebSocket handler", w is None,
+           "the socket still carries the keep-alive timeout when the WebSocket handler gets it: after that long without a frame (or in the middle of a slowly "
+           "delivered frame) recv() fails with ReadError, the stream is dropped and a Close is sent to a client that did nothing wrong", path=w)
 
 
 def closed_flag(chk, prog):
@@ -393,6 +430,9 @@ def run(chk):
     closed_flag(chk, prog)
     probe_only_first(chk, prog)
     blocking_mode_restored(chk, prog)
+    no_timeout_after_upgrade(chk, prog)
+    from . import c10
+    c10.exact_reads(chk, prog, "R5.exact_reads")
     from . import c18
     c18.sha1_padding(chk, prog, rule="R1.accept_sha1_padding")
     import json as _json
